@@ -37,6 +37,7 @@ class Sched:
         self.held = {}             # thread index -> locks it holds, in acquisition order
         self.lock_edges = set()    # (role held, role acquired): observed nesting of lock acquisitions
         self.same_role_pairs = set()   # (role, instance held, instance acquired) for nested locks of one role
+        self.line_files = None         # basenames of library modules whose executed lines are yield points
 
     # -- registration -------------------------------------------------------
     def me(self):
@@ -56,7 +57,17 @@ class Sched:
                     self.cv.wait()
             try:
                 if not self.deadlock:
-                    fns[i]()
+                    if self.line_files:
+                        # line-level yield points: every executed line of the named library modules (the small,
+                        # lock-protected data structures) is a place where the thread can be preempted
+                        import sys
+                        sys.settrace(self._global_tracer)
+                    try:
+                        fns[i]()
+                    finally:
+                        if self.line_files:
+                            import sys
+                            sys.settrace(None)
             except BaseException as x:     # noqa
                 errors[i] = x
             finally:
@@ -80,6 +91,17 @@ class Sched:
             for t in alive:
                 t.join(timeout=5)
         return errors
+
+    def _global_tracer(self, frame, event, arg):
+        fn = frame.f_code.co_filename
+        if os.sep + 'file_builder' + os.sep in fn and os.path.basename(fn) in self.line_files:
+            return self._local_tracer
+        return None
+
+    def _local_tracer(self, frame, event, arg):
+        if event == 'line':
+            self.yield_point('line')
+        return self._local_tracer
 
     # -- scheduling -----------------------------------------------------------
     def _pick_next(self, frm):
